@@ -41,7 +41,7 @@ def node_extra(node):
         d["mac_table"] = {m: p.port_num for m, p in node.mac_address_table.items()}
     sess = getattr(node, "session_manager", None)
     if sess is not None:
-        d["sessions"] = sorted(getattr(sess, "sessions_by_uuid", {}).keys())
+        d["sessions"] = list(getattr(sess, "sessions_by_uuid", {}).keys())  # insertion order: stable under equal histories (raw ids are random)
     if hasattr(node, "route_table"):
         d["routes"] = [(str(r.address), str(r.subnet_mask), str(r.next_hop_ip_address), r.metric) for r in node.route_table.routes]
         dr = node.route_table.default_route
@@ -54,13 +54,13 @@ def node_extra(node):
             if hasattr(s, f):
                 e[f] = _plain(getattr(s, f))
         if hasattr(s, "_connections"):
-            e["connections"] = sorted(map(str, s._connections.keys()))
+            e["connections"] = list(map(str, s._connections.keys()))
         if hasattr(s, "client_connections"):
-            e["client_connections"] = sorted(map(str, s.client_connections.keys()))
+            e["client_connections"] = list(map(str, s.client_connections.keys()))
         if hasattr(s, "users"):
             e["users"] = {u: (x.password, x.disabled, x.is_admin, x.num_of_logins) for u, x in s.users.items()}
         if hasattr(s, "remote_sessions"):
-            e["remote_sessions"] = sorted(s.remote_sessions.keys())
+            e["remote_sessions"] = list(s.remote_sessions.keys())
             e["local_session"] = None if s.local_session is None else s.local_session.uuid
         if hasattr(s, "dns_cache"):
             e["dns_cache"] = _plain(s.dns_cache)
